@@ -411,6 +411,10 @@ def _same(a, b):
 def _close(a, b, rtol=1e-7, atol=1e-9):
     if isinstance(a, (bool, np.bool_)) or isinstance(b, (bool, np.bool_)):
         return bool(a) == bool(b)
+    if isinstance(a, (complex, np.complexfloating)) and a.imag == 0:
+        a = a.real
+    if isinstance(b, (complex, np.complexfloating)) and b.imag == 0:
+        b = b.real
     try:
         a = float(a)
         b = float(b)
@@ -517,3 +521,82 @@ def rng(E, prefix="rng"):
         finally:
             for k, v in saved.items():
                 setattr(np.random, k, v)
+
+
+class EigStub:
+    """contract stub for the symmetric / general eigen-solvers used by nvecs and hosvd.
+    sym mode : records the matrix handed over and returns fresh symbolic (w, V) -- eigenvalues pairwise
+               different in magnitude and non-zero ("well separated"), ascending for eigh/eigsh as documented;
+    conc mode: calls the real solver, records argument and result."""
+
+    def __init__(self, E):
+        self.E = E
+        self.calls = []  # dicts: kind, A (cells), k, w, V
+
+    def _fresh(self, kind, A, k):
+        E = self.E
+        n = int(np.shape(A)[0])
+        m = n if k is None else int(k)
+        c = len(self.calls)
+        w = [E.real(f"ev{c}_{j}") for j in range(m)]
+        for j in range(m):
+            E.assume(w[j] != 0)
+            for i in range(j):
+                E.assume((w[i] != w[j]) & (w[i] != -w[j]))
+        if kind in ("eigh", "eigsh"):
+            for j in range(m - 1):
+                E.assume(w[j] < w[j + 1])
+        V = E.reals(f"evec{c}_", (n, m))
+        return npenv.obj_array(w), V
+
+    def _call(self, kind, real_fn, A, k=None, **kw):
+        if hasattr(A, "toarray"):
+            Ad = A.toarray()
+        else:
+            Ad = A
+        if self.E.sym:
+            w, V = self._fresh(kind, Ad, k)
+        else:
+            w, V = real_fn(A, k, **kw) if k is not None else real_fn(A, **kw)
+            if np.iscomplexobj(w) and np.all(np.imag(w) == 0) and np.all(np.imag(V) == 0):
+                w, V = np.real(w), np.real(V)
+            if kind in ("eig", "eigs"):
+                # the order in which a general eigen-solver returns its pairs is not part of its contract:
+                # when replaying a solver model, give the real pairs the relative order of the model's
+                c = len(self.calls)
+                m = len(w)
+                model = [self.E.assignment.get(f"ev{c}_{j}") for j in range(m)]
+                if all(v is not None for v in model):
+                    want_rank = np.argsort(np.argsort([-abs(float(Fraction(v))) for v in model]))
+                    have = np.argsort(-np.abs(w))  # indices of real pairs by decreasing magnitude
+                    perm = [have[want_rank[j]] for j in range(m)]
+                    w, V = w[perm], V[:, perm]
+        from . import oracles
+        self.calls.append(dict(kind=kind, A=oracles.cells(np.asarray(Ad)), k=k, w=[x for x in np.asarray(w).tolist()], V=oracles.cells(np.asarray(V))))
+        return w, V
+
+
+@contextlib.contextmanager
+def eig(E):
+    """install the eigen-solver stub into the pyttb modules (sym) / wrap the real solvers (conc)"""
+    import scipy.linalg
+    import scipy.sparse.linalg
+    import types
+    stub = EigStub(E)
+    real = dict(eigh=scipy.linalg.eigh, eig=scipy.linalg.eig, eigsh=scipy.sparse.linalg.eigsh, eigs=scipy.sparse.linalg.eigs)
+    fake = types.SimpleNamespace(
+        linalg=types.SimpleNamespace(eigh=lambda A, **kw: stub._call("eigh", real["eigh"], A, **kw),
+                                     eig=lambda A, **kw: stub._call("eig", real["eig"], A, **kw)),
+        sparse=types.SimpleNamespace(linalg=types.SimpleNamespace(
+            eigsh=lambda A, k=6, **kw: stub._call("eigsh", real["eigsh"], A, k, **kw),
+            eigs=lambda A, k=6, **kw: stub._call("eigs", real["eigs"], A, k, **kw))))
+    saved = []
+    for m in npenv.pyttb_modules():
+        if "scipy" in m.__dict__:
+            saved.append((m, m.__dict__["scipy"]))
+            m.__dict__["scipy"] = fake
+    try:
+        yield stub
+    finally:
+        for m, old in saved:
+            m.__dict__["scipy"] = old
